@@ -54,9 +54,10 @@ theorem find_reports_good_groups (inp : FindInput) (ax1 : Nat) (oracle : Nat →
 /-- **extend_complete.** A tuple `t` of positions in the near list is among the candidates whenever its first
     entry is a home-image atom of the first pattern element, and every later entry is a near atom of the right
     element inside the start atom's cubic window that reproduces ALL distances to the earlier entries within the
-    code's `math.isclose(…, abs_tol=atol)`. -/
+    code's `math.isclose(…, abs_tol=atol)`, and no two entries are (images of) the same unit-cell atom
+    (`nearUcL` = `near_indices[·] % len(structure)`; the extension loop skips such a candidate). -/
 theorem extend_complete (pp : List Vec3) (pelems : List String) (atol m : Rat) (nStruct : Nat)
-    (nearPosL : List Vec3) (nearElemL : List String) (t : List Nat)
+    (nearPosL : List Vec3) (nearElemL : List String) (nearUcL : List Nat) (t : List Nat)
     (hpos : 0 < pp.length) (hlen : t.length = pp.length)
     (hstart : t.getD 0 0 < min nStruct nearElemL.length)
     (hel0 : nearElemL.getD (t.getD 0 0) "" = pelems.getD 0 "")
@@ -66,9 +67,11 @@ theorem extend_complete (pp : List Vec3) (pelems : List String) (atol m : Rat) (
     (helem : ∀ i, 1 ≤ i → i < t.length → nearElemL.getD (t.getD i 0) "" = pelems.getD i "")
     (hdist : ∀ i j, j < i → i < t.length →
       iscloseSqrt (distSq (pp.getD i Vec3.zero) (pp.getD j Vec3.zero))
-        (distSq (nearPosL.getD (t.getD j 0) Vec3.zero) (nearPosL.getD (t.getD i 0) Vec3.zero)) atol = true) :
-    t ∈ candidates pp pelems atol m nStruct nearPosL nearElemL :=
-  candidates_complete pp pelems atol m nStruct nearPosL nearElemL t hpos hlen hstart hel0 hin hcube helem hdist
+        (distSq (nearPosL.getD (t.getD j 0) Vec3.zero) (nearPosL.getD (t.getD i 0) Vec3.zero)) atol = true)
+    (hdistinct : ∀ i j, j < i → i < t.length → nearUcL.getD (t.getD j 0) 0 ≠ nearUcL.getD (t.getD i 0) 0) :
+    t ∈ candidates pp pelems atol m nStruct nearPosL nearElemL nearUcL :=
+  candidates_complete pp pelems atol m nStruct nearPosL nearElemL nearUcL t hpos hlen hstart hel0 hin hcube helem hdist
+    hdistinct
 
 /-! ## the orthorhombic window -/
 
@@ -143,20 +146,23 @@ theorem find_complete_partial (inp : FindInput) (ax1 : Nat) (oracle : Nat → Na
     (squared: `4·ε² ≤ atol²`) — satisfies the pairwise distance test of the search.  Fully rational proof
     (Lagrange identity), for every cell. -/
 theorem rigid_occurrence_meets_distance_test (inp : FindInput) (epsSq : Rat) (h4 : 4 * epsSq ≤ inp.atol * inp.atol)
-    (g : Nat → Nat) (n : Nat → Int × Int × Int) (h : RigidOccurrence inp epsSq g n) : DistOccurrence inp g n :=
-  rigid_implies_dist inp epsSq h4 g n h
+    (g : Nat → Nat) (n : Nat → Int × Int × Int) (h : RigidOccurrence inp epsSq g n)
+    (hinj : ∀ i j, j < i → i < inp.ppos.length → g j ≠ g i) : DistOccurrence inp g n :=
+  rigid_implies_dist inp epsSq h4 g n h hinj
 
 /-- **find_complete_rigid_partial** (orthorhombic or triclinic; under `OracleAligns`): every rotated + translated copy of the
-    pattern with each atom within `ε ≤ atol/2`, inside the cell or straddling faces, edges or corners, is reported. -/
+    pattern with each atom within `ε ≤ atol/2`, inside the cell or straddling faces, edges or corners, is reported.
+    `hdistinct`: copies consist of pairwise different atoms (on the property's domain a theorem: `occ_atoms_distinct`). -/
 theorem find_complete_rigid_partial (inp : FindInput) (ax1 : Nat) (oracle : Nat → Nat → Quat)
     (choose : Nat → List Nat → Nat) (hG : searchGuards inp = true) (epsSq : Rat)
     (h4 : 4 * epsSq ≤ inp.atol * inp.atol) (key : List Nat) (hocc : Occ inp epsSq key)
+    (hdistinct : ∀ g n, RigidOccurrence inp epsSq g n → ∀ i j, j < i → i < inp.ppos.length → g j ≠ g i)
     (hor : ∀ g n, RigidOccurrence inp epsSq g n → OracleAligns inp ax1 oracle (occTuple inp g n)) :
     key ∈ (find inp ax1 oracle choose).map Match.key := by
   rcases hocc with ⟨g, n, hr, hk⟩
   rw [hk]
   exact find_complete_of_aligned inp ax1 oracle choose (windowComplete_of_guards inp hG) g n
-    (rigid_implies_dist inp epsSq h4 g n hr) (hor g n hr)
+    (rigid_implies_dist inp epsSq h4 g n hr (hdistinct g n hr)) (hor g n hr)
 
 /-- **count corollary (partial).** Let `ks` list the distinct occurrence keys of the input.  If every listed
     occurrence is reported (completeness: `find_complete_partial` under `OracleAligns`) and every reported key is a
@@ -199,6 +205,10 @@ example : orthoGuards c02Example = true := by decide +kernel
 example : searchGuards c02Example = true := by decide +kernel
 
 example : DistOccurrence c02Example c02ExampleG c02ExampleN where
+  inj := by
+    intro i j hji _ h
+    have : j = i := h
+    omega
   idx_lt := by
     intro k hk
     have : k < 2 := hk
@@ -235,6 +245,10 @@ example : triGuards c02Tri = true := by decide +kernel
 example : searchGuards c02Tri = true := by decide +kernel
 
 example : DistOccurrence c02Tri c02ExampleG c02ExampleN where
+  inj := by
+    intro i j hji _ h
+    have : j = i := h
+    omega
   idx_lt := fun k hk => hk
   home := rfl
   elem := by
